@@ -256,6 +256,6 @@ def strat_joint(tier):
 
 
 PARTS = [
-    Part("univariate", check_univariate, strat_univariate, quick=4000, thorough=30000, shrink_quick=False, min_nontrivial_frac=0.4),
-    Part("joint", check_joint, strat_joint, quick=2500, thorough=14000, shrink_quick=False, min_nontrivial_frac=0.4),
+    Part("univariate", check_univariate, strat_univariate, quick=4000, thorough=30000, shrink_quick=False, min_nontrivial_frac=0.2),
+    Part("joint", check_joint, strat_joint, quick=2500, thorough=14000, shrink_quick=False, min_nontrivial_frac=0.15),
 ]
